@@ -4,6 +4,7 @@ import TF.Model.BField
 import TF.Model.XField
 import TF.Model.XFieldInv
 import TF.Spec.Field
+import TF.Drv.BFieldMore
 /-! driver handlers for the families `bfe` and `xfe` (C01) -/
 namespace TF.Drv.BField
 open TF.Proto TF.Gen TF.Model
@@ -48,7 +49,7 @@ def bfe : Handler
   | "sum", [xs] => xs.natList?.map fun l => okN (BF.sum l)
   | "pacc", [.nat m, .nat base, .nat tail] => okN (BF.powerAccumulator m base tail)
   | "eq", [.nat a, .nat b] => some ("ok:" ++ fmtBool (bfe_value a == bfe_value b))
-  | _, _ => none
+  | op, args => TF.Drv.BFieldMore.bfeMore op args     -- C01 growth ops (TF/Drv/BFieldMore.lean)
 
 def toVal (x : XF.X3) : Spec.X3 := XF.toVal x
 def ofVal (x : Spec.X3) : XF.X3 := XF.ofVal x
@@ -81,6 +82,6 @@ def xfe : Handler
       -- remainder of the long division by X^3 - X + 1, zero padded
       let l ← cs.natList?
       pure (okOptX ((XFInv.ofPolyG bfieldOps (l.map (· % P))).map ofVal))
-  | _, _ => none
+  | op, args => TF.Drv.BFieldMore.xfeMore op args     -- C01 growth ops (TF/Drv/BFieldMore.lean)
 
 end TF.Drv.BField
